@@ -1414,7 +1414,7 @@ impl ClientConductor {
             if Arc::strong_count(&entry.log_buffers) == 1 {
                 if MAX_MOMENT == entry.time_of_last_state_change_ms {
                     entry.time_of_last_state_change_ms = now_ms;
-                } else if now_ms - self.resource_linger_timeout_ms > entry.time_of_last_state_change_ms {
+                } else if now_ms > entry.time_of_last_state_change_ms + self.resource_linger_timeout_ms {
                     log_buffers_to_remove.push(*id);
                 }
             }
@@ -1429,7 +1429,7 @@ impl ClientConductor {
         //remove outdated lingering Images
         let resource_linger_timeout_ms = self.resource_linger_timeout_ms;
         self.lingering_image_lists
-            .retain(|img| now_ms - resource_linger_timeout_ms <= img.time_of_last_state_change_ms);
+            .retain(|img| now_ms <= img.time_of_last_state_change_ms + resource_linger_timeout_ms);
     }
 
     pub fn linger_resource(&mut self, now_ms: Moment, images: Vec<Image>) {
